@@ -415,6 +415,24 @@ pub fn run_history_property(a: &WorkerArgs) -> WorkerReport {
         }
         acc.rep.extra.insert("zst_battery_cases".into(), serde_json::json!(4 * 3 * 5));
     }
+    if matches!(prop, 4 | 16) && a.worker % 100 == 0 {
+        // drop accounting under every combination of item / priority types with and without drop glue
+        let fails = crate::special::drop_glue_battery();
+        for f in fails {
+            let owned = match prop {
+                16 => matches!(f.op, "clear" | "drain") && f.clause != "double_drop",
+                _ => f.clause == "double_drop" || f.clause == "panic",
+            };
+            if owned && !acc.rep.violations.iter().any(|v| v.signature == f.signature()) {
+                let path = format!("{}/{}-drop-glue-battery.json", a.replay_dir, pid);
+                let _ = std::fs::write(&path, "{\"drop_glue_battery\":true}");
+                acc.rep.violations.push(ViolationRec { signature: f.signature(), detail: f.detail, replay: path, step: 0 });
+            } else if !owned {
+                *acc.rep.foreign.entry(f.signature()).or_insert(0) += 1;
+            }
+        }
+        acc.rep.extra.insert("drop_glue_battery_scripts".into(), serde_json::json!(6 * 4 * 19));
+    }
     // exhaustive small-scope enumeration (partitioned over the workers)
     {
         let small = crate::enumerate::small_cases(prop);
@@ -699,6 +717,13 @@ pub fn replay_history(prop: u8, text: &str, strict_known: &[KnownFinding]) -> Re
         let c: crate::huge::HugeCase = serde_json::from_str(text).map_err(|e| format!("cannot parse case: {}", e))?;
         crate::huge::HUGE_PROP.with(|p| p.set(prop));
         return Ok(crate::huge::huge_verdict(&c).err());
+    }
+    if text.contains("drop_glue_battery") {
+        let fails = crate::special::drop_glue_battery();
+        return Ok(fails.into_iter().find(|f| match prop {
+            16 => matches!(f.op, "clear" | "drain") && f.clause != "double_drop",
+            _ => f.clause == "double_drop" || f.clause == "panic",
+        }));
     }
     #[cfg(feature = "std")]
     if prop == 15 && text.contains("zst_battery") {
